@@ -969,7 +969,7 @@ bool ParseN2kPGN128259(const tN2kMsg &N2kMsg, unsigned char &SID, double &WaterR
   SID=N2kMsg.GetByte(Index);
   WaterReferenced=N2kMsg.Get2ByteUDouble(0.01,Index);
   GroundReferenced=N2kMsg.Get2ByteUDouble(0.01,Index);
-  SWRT=(tN2kSpeedWaterReferenceType)(N2kMsg.GetByte(Index)&0x0F);
+  SWRT=(tN2kSpeedWaterReferenceType)(N2kMsg.GetByte(Index));
 
   return true;
 }
